@@ -181,14 +181,14 @@ constexpr bool SetsInsideF(Src s) {
 
 enum class Sink : std::uint8_t { Get, WaitTouch, Detach, DetachInline, DetachOn, DetachInherit, kCount };
 const char* kSinkNames[] = {"Get", "Wait+Touch", "Detach()", "DetachInline(f)", "Detach(e,f)", "FutureOn::Detach(f)"};
-enum class Start : std::uint8_t { ToFutureGet, ToFutureOnGet, Get, Detach, DetachOn, AsInnerTask, DropUnstarted, CoAwait, AwaitKeep, AwaitTake, Cancel, kCount };
+enum class Start : std::uint8_t { ToFutureGet, ToFutureOnGet, Get, Detach, DetachOn, AsInnerTask, DropUnstarted, CoAwait, AwaitKeep, AwaitTake, Cancel, Overwritten, kCount };
 constexpr bool StartsThroughHere(Start s) {
   // the head is started by its consumer calling Here()/Next() on it (see the known finding D3)
   return s == Start::AsInnerTask || s == Start::CoAwait || s == Start::AwaitKeep || s == Start::AwaitTake;
 }
 const char* kStartNames[] = {"ToFuture().Get", "ToFuture(e).Get", "Get", "Detach()", "Detach(e)", "returned from an eager callback", "dropped unstarted",
                              "co_await in a coroutine", "co_await Await(task), Touch const&, destroy the completed task",
-                             "co_await Await(task), Touch&&", "Cancel()"};
+                             "co_await Await(task), Touch&&", "Cancel()", "overwritten unstarted by move-assignment (task = {})"};
 
 // executors: index -> what the proxy wraps
 enum Ex : std::uint8_t { kExInline = 0, kExPool = 1, kExStrand = 2, kExStopped = 3, kExPool2 = 4, kExManual = 5, kExCount = 6 };
@@ -295,6 +295,7 @@ struct Program {
   std::uint32_t pool_workers = 1;
   std::uint32_t build_sleep = 0;  // lazy: virtual ns the builder sleeps between building and starting
   bool drop_future_after_build = false;
+  bool drop_by_assignment = false;  // the final future is released by `f = {}` instead of its destructor
 };
 
 struct Invocation {
@@ -413,6 +414,7 @@ class Case final : public sim::CaseBase {
       }
       if (p03) {
         p.drop_future_after_build = g.Draw(6) == 5;
+        p.drop_by_assignment = p.drop_future_after_build && g.Flip();
       }
     } else {
       p.start = static_cast<Start>(g.Draw(static_cast<std::uint32_t>(Start::kCount)));
@@ -546,7 +548,7 @@ class Case final : public sim::CaseBase {
         j.KV("sink_exec", kExNames[p.sink_exec]);
       }
       if (p.drop_future_after_build) {
-        j.KV("fault", "final future dropped");
+        j.KV("fault", p.drop_by_assignment ? "final future released by move-assignment (f = {})" : "final future dropped");
       }
     } else {
       j.KV("start", kStartNames[static_cast<int>(p.start)]);
@@ -1117,8 +1119,12 @@ class Case final : public sim::CaseBase {
     using V = std::conditional_t<std::is_same_v<F, Fut<T>> || std::is_same_v<F, FutOn<T>>, T, void>;
     if (prog.drop_future_after_build) {
       SIM_FAULT("future_dropped");
-      auto dead = std::move(f);
-      (void)dead;
+      if (prog.drop_by_assignment) {
+        f = F{};  // move-assignment swaps, the temporary's destructor detaches
+      } else {
+        auto dead = std::move(f);
+        (void)dead;
+      }
       return;
     }
     switch (prog.sink) {
@@ -1216,6 +1222,11 @@ class Case final : public sim::CaseBase {
       case Start::Cancel:
         SIM_FAULT("task_cancelled");
         std::move(t).Cancel();
+        break;
+      case Start::Overwritten:
+        // move-assignment swaps: the old chain ends up in the temporary and is cancelled by its destructor, exactly like a dropped task
+        SIM_FAULT("task_overwritten_unstarted");
+        t = TaskT{};
         break;
       default: {
         SIM_FAULT("task_dropped_unstarted");
@@ -1441,7 +1452,7 @@ class Case final : public sim::CaseBase {
       if (p.start == Start::ToFutureOnGet || p.start == Start::DetachOn) {
         cur_exec = p.start_exec;
         cur_proxied = true;
-      } else if ((p.start == Start::DropUnstarted || p.start == Start::Cancel)) {
+      } else if (p.start == Start::DropUnstarted || p.start == Start::Cancel || p.start == Start::Overwritten) {
         cur_exec = kExStopped;
         cur_proxied = false;  // the library's own stopped inline executor
         never_started = true;
@@ -1528,7 +1539,7 @@ class Case final : public sim::CaseBase {
       } else if (p.sink == Sink::DetachInline) {
         m.invoked.push_back(Invocation{-2, m.final, -1, 0});
       }
-    } else if (p.start == Start::Detach || p.start == Start::DetachOn || (p.start == Start::DropUnstarted || p.start == Start::Cancel)) {
+    } else if (p.start == Start::Detach || p.start == Start::DetachOn || p.start == Start::DropUnstarted || p.start == Start::Cancel || p.start == Start::Overwritten) {
       m.final_observable = false;
     }
     return m;
